@@ -26,3 +26,15 @@ CHECKS["C11"] = {
         "thorough": {"parts": 1, "bounds": "len<=3 all bytes, len<=8 alphabet"},
     }],
 }
+
+
+# ---- per-engine check definition modules (vlib/checks_<engine>.py), each defining CHECKS / ENGINES ----
+import glob as _glob
+import importlib as _importlib
+import os as _os
+
+for _f in sorted(_glob.glob(_os.path.join(_os.path.dirname(__file__), "checks_*.py"))):
+    _m = _importlib.import_module("vlib." + _os.path.basename(_f)[:-3])
+    CHECKS.update(getattr(_m, "CHECKS", {}))
+    ENGINES.extend(getattr(_m, "ENGINES", []))
+    NOT_APPLICABLE.update(getattr(_m, "NOT_APPLICABLE", {}))
